@@ -358,4 +358,79 @@ theorem mapM_error {α β ε} (f : α → Except ε β) (l : List α) (e : ε)
           obtain ⟨b', hb'⟩ := hbefore k' (by omega)
           exact ⟨b', by simpa using hb'⟩
 
+/-! ### ECA under affine changes of the time axis (window and lag rescaled with it) -/
+
+theorem le_mul_iff (k x y : Rat) (hk : 0 < k) : k * x ≤ k * y ↔ x ≤ y := by
+  have := nonneg_mul_iff k (y - x) hk
+  have e : k * (y - x) = k * y - k * x := by grind
+  grind
+
+theorem mul_eq_zero_iff' (k x : Rat) (hk : 0 < k) : k * x = 0 ↔ x = 0 := by
+  have h1 := le_mul_iff k x 0 hk
+  have h2 := le_mul_iff k 0 x hk
+  have e : k * 0 = 0 := Rat.mul_zero k
+  grind
+
+theorem inWin_aff (k lo hi d : Rat) (hk : 0 < k) :
+    inWin (k * lo) (k * hi) (k * d) = inWin lo hi d := by
+  simp only [inWin, le_mul_iff k _ _ hk]
+
+theorem nStart_aff (k c : Rat) (hk : 0 < k) (e : List Rat) (x : Rat) :
+    nStart (e.map (affT k c)) (k * x) = nStart e x := by
+  unfold nStart
+  rw [List.head?_map]
+  cases e.head? with
+  | none => rfl
+  | some a =>
+    simp only [Option.map, List.countP_map]
+    congr 1
+    funext u
+    simp only [Function.comp_def, affT]
+    have := le_mul_iff k u (a + x) hk
+    have e : k * (a + x) = k * a + k * x := by grind
+    grind
+
+theorem nEnd_aff (k c : Rat) (hk : 0 < k) (e : List Rat) (x : Rat) :
+    nEnd (e.map (affT k c)) (k * x) = nEnd e x := by
+  unfold nEnd
+  rw [List.getLast?_map]
+  cases e.getLast? with
+  | none => rfl
+  | some a =>
+    simp only [Option.map, List.countP_map]
+    congr 1
+    funext u
+    simp only [Function.comp_def, affT]
+    have := le_mul_iff k (a - x) u hk
+    have e : k * (a - x) = k * a - k * x := by grind
+    grind
+
+theorem prec_aff (k c lo hi lag : Rat) (hk : 0 < k) (as bs : List Rat) :
+    prec (inWin (k * lo) (k * hi)) (k * lag) (as.map (affT k c)) (bs.map (affT k c))
+      = prec (inWin lo hi) lag as bs := by
+  simp only [prec, List.countP_map, List.any_map]
+  congr 1
+  funext a
+  simp only [Function.comp_def]
+  congr 1
+  funext b
+  have : affT k c a - affT k c b - k * lag = k * (a - b - lag) := by simp only [affT]; grind
+  rw [this, inWin_aff k lo hi _ hk]
+
+theorem trig_aff (k c lo hi lag : Rat) (hk : 0 < k) (as bs : List Rat) :
+    trig (inWin (k * lo) (k * hi)) (k * lag) (as.map (affT k c)) (bs.map (affT k c))
+      = trig (inWin lo hi) lag as bs := by
+  simp only [trig, List.countP_map, List.any_map]
+  congr 1
+  funext b
+  simp only [Function.comp_def]
+  congr 1
+  funext a
+  have : affT k c a - affT k c b - k * lag = k * (a - b - lag) := by simp only [affT]; grind
+  rw [this, inWin_aff k lo hi _ hk]
+
+theorem inst_aff (k tm lag : Rat) (hk : 0 < k) :
+    (decide (k * lag = 0) && decide (k * tm = 0)) = (decide (lag = 0) && decide (tm = 0)) := by
+  simp only [mul_eq_zero_iff' k _ hk]
+
 end Pyunicorn.Events
